@@ -23,6 +23,9 @@ const tcharSpecials = "!#$%&'*+-.^_`|~"
 const sfAlphabet = lc + uc + dg + tcharSpecials + ":/;=,()\"\\ \t?@<>[]{}"
 
 func genKey(r *vu.Rng) string {
+	if r.Chance(1, 6) { // small pool: repeated keys
+		return []string{"u", "i", "a"}[r.Intn(3)]
+	}
 	first := lc + "*"
 	if r.Chance(1, 12) {
 		first = uc + dg + "_-"
@@ -618,12 +621,42 @@ func runRefTop(op, s string) (string, bool) {
 	return runRef(op, s)
 }
 
+const sigDup = "C56:duplicate-key-instances-all-reported"
+
+// lastWins turns the canonical "ok k:v[:p] …" sequence of a dictionary / parameter list into the RFC's
+// ordered map (§4.2.2 steps 2.4–2.5, §4.2.3.2 steps 2.7–2.8): a repeated key overwrites the earlier
+// member in place, a new key is appended.
+func lastWins(res string) string {
+	if !strings.HasPrefix(res, "ok") {
+		return res
+	}
+	var out []string
+	for _, m := range strings.Fields(res)[1:] {
+		k := m[:strings.IndexByte(m, ':')]
+		done := false
+		for i, e := range out {
+			if e[:strings.IndexByte(e, ':')] == k {
+				out[i], done = m, true
+				break
+			}
+		}
+		if !done {
+			out = append(out, m)
+		}
+	}
+	return strings.Join(append([]string{"ok"}, out...), " ")
+}
+
 func oracleContainer(op, s, got string, o *vu.Out) {
 	strict, has := runRef(op, s)
 	if !has {
 		return
 	}
-	want, _ := runRefTop(op, s)
+	seq, _ := runRefTop(op, s)
+	want := seq
+	if op == "dict" || op == "params" {
+		want = lastWins(seq)
+	}
 	if got == want {
 		return
 	}
@@ -631,6 +664,13 @@ func oracleContainer(op, s, got string, o *vu.Out) {
 		// known finding: the package implements §4.2.1 / §4.2.2 / §4.2.3 but not the §4.2 wrapper.
 		o.Fail(sigTopSP, fmt.Sprintf("%s(%q) rejected; RFC 9651 §4.2 discards the surrounding SP and yields %q", op, s, want))
 		o.Stat("deviation:" + sigTopSP)
+		return
+	}
+	if got == seq && want != seq {
+		// known finding: every instance of a repeated key is reported to the callback, in order; the RFC's
+		// dictionary / parameters keep only the last one (a last-wins consumer reconstructs it).
+		o.Fail(sigDup, fmt.Sprintf("%s(%q) reports %q; RFC 9651 yields %q (repeated keys overwrite)", op, s, got, want))
+		o.Stat("deviation:" + sigDup)
 		return
 	}
 	o.Fail("", fmt.Sprintf("%s(%q): package says %q, RFC 9651 reference says %q", op, s, got, want))
